@@ -32,6 +32,11 @@ def rxAny (cfg : Cfg) (rs : List String) (s : String) : Bool := rs.any (fun r =>
 /-- `px.IncludesAll(xs, ys)`: every element of `xs` occurs in `ys` -/
 def subsetStr (xs ys : List String) : Bool := xs.all (fun x => ys.contains x)
 
+/-- number of distinct strings (`len(hm)` of the name-keyed map built from a Struct's members) -/
+def distinctCount : List String → Nat
+  | [] => 0
+  | n :: ns => (if ns.contains n then 0 else 1) + distinctCount ns
+
 def isStringFamily : Ty → Bool
   | .str | .strSz _ | .strVal _ | .enum _ _ | .pattern _ => true
   | _ => false
@@ -198,7 +203,7 @@ def asgRecv (a b : Ty) : Bool :=
        | _ => false)
   | .struct ms =>
       (match b with
-       | .struct ms' => structAll ms ms' == some (ms'.map (·.1)).eraseDups.length
+       | .struct ms' => structAll ms ms' == some (distinctCount (ms'.map (·.1)))
        | .hash k' v' r' =>
            sfh && structReq ms v' &&
            (((ms.filter (fun m => !m.2.1)).length == 0) || asg .str k') &&
